@@ -918,6 +918,15 @@ func divGuard(ins ssa.Instruction, den ssa.Value) string {
 			return g
 		}
 	}
+	// a zero-preserving conversion of a guarded value (NewDecFromInt(x) is zero iff x is)
+	if c, ok := den.(*ssa.Call); ok && len(c.Common().Args) == 1 && !c.Common().IsInvoke() {
+		_, n := calleeName(c.Common())
+		if strings.HasSuffix(n, "NewDecFromInt") || strings.HasSuffix(n, "ToLegacyDec") || strings.HasSuffix(n, "NewDecFromBigInt") || strings.HasSuffix(n, "NewIntFromBigInt") || strings.HasSuffix(n, "Int.BigInt") {
+			if g := divGuard(ins, c.Common().Args[0]); g != "" {
+				return g + " (through " + n + ")"
+			}
+		}
+	}
 	de := pureExpr(den, 0)
 	if de == "" {
 		return ""
